@@ -37,6 +37,8 @@ func prepareFSReplay(k *Kernel) error {
 	if err != nil {
 		return err
 	}
+	// helper functions of install.go that pass the file along see the shim's file type
+	src = regexp.MustCompile(`\*os\.File\b`).ReplaceAll(src, []byte("*verifFile"))
 	if err := os.WriteFile(filepath.Join(dir, "install.go"), osCallRe.ReplaceAll(src, []byte("verifos.$1(")), 0o644); err != nil {
 		return err
 	}
